@@ -59,7 +59,19 @@ GATE = {
     40: "PANIC_BEFORE_FREE_TLS", 41: "PANIC_BEFORE_CAS", 42: "PANIC_BEFORE_RESET_TID",
     43: "PANIC_BEFORE_FREE_BLOCK", 44: "PANIC_BEFORE_UNMAP_EXIT",
 }
-JOIN_OPS = ("j", "J", "w", "s")  # join at once / after the thread is gone / while the thread still sleeps (1.5 ms, 300 ms)
+JOIN_OPS = ("j", "J", "w", "s", "T")  # join at once / after the thread is gone / while the thread still sleeps (1.5 ms, 300 ms)
+PANIC_KINDS = "peomw"  # p plain panic; e/o inside an eprintln!/println! argument; m/w holding a Mutex / RwLock write guard
+
+
+def is_panic(p):
+    """second field of a spec: False/True, or a closure-kind letter (see probe-thread/src/main.rs)"""
+    return p is True or (isinstance(p, str) and p in PANIC_KINDS)
+
+
+def kind_letter(p):
+    return p if isinstance(p, str) else ("p" if p else "r")
+
+
 KGATE = 99  # model-only step: kernel exit of the thread (clear-tid write + wake)
 
 # ======================================================================================
@@ -574,7 +586,7 @@ def parse_report(text):
     r = dict(mode=None, main_tid=0, base=None, end=None, maps0=[], maps1=[], spawn={}, join={}, drop=[], runs={}, alive=None,
              blocks={}, tids={}, gt=[], log=[], poison=None, poisonbad=[], live=[], counters=None, stuck=None, done=False,
              aborted=False, fp=[], hist=None, concurrent=None, settle_timeouts=0, prejoin_live=None, joining=[], usage=False,
-             early=[], early_total=0)
+             early=[], early_total=0, stillrunning=[], notcleared=[], notgone=[])
 
     def snap(w):
         return dict(maps=int(w[2]), vm=int(w[4]), tasks=int(w[6]), live_n=int(w[8]), live_bytes=int(w[9]), live_hash=int(w[10], 16))
@@ -641,6 +653,10 @@ def parse_report(text):
                 r["prejoin_live"] = (int(w[1]), int(w[2]))
             elif k == "joining":
                 r["joining"].append(int(w[1]))
+            elif k in ("notcleared", "notgone"):
+                r[k].append(int(w[1]))
+            elif k == "stillrunning":
+                r["stillrunning"].append(int(w[1]))
             elif k == "early":
                 r["early"].append((int(w[1]), int(w[2]), int(w[3], 16)))
             elif k == "early_total":
@@ -733,25 +749,32 @@ def classify_allocs(rep):
             rec = dict(addr=e["addr"], size=e["size"], align=e["align"], by=e["tid"], ctx=(e["ord"], e["gate"]), frees=[], what=None, ord=None)
             live[e["addr"]] = rec
             last_alloc[e["addr"]] = rec
-            if e["tid"] == main and e["gate"] == 1 and e["ord"] != 255:
+            if e["gate"] == 1 and e["ord"] != 255:
                 rec["what"], rec["ord"] = "closure", e["ord"]
                 if slot(e["ord"])["closure"] is None:
                     slot(e["ord"])["closure"] = rec
+                elif e["tid"] != main and e["tid"] in tid2ord:
+                    # a spawned thread whose own spawn failed right after this gate: the allocation is its own
+                    rec["what"], rec["ord"] = "unclassified", None
                 else:
                     slot(e["ord"])["other"].append(rec)
-            elif e["tid"] == main and e["gate"] == 2 and e["ord"] != 255:
+            elif e["gate"] == 2 and e["ord"] != 255:
                 rec["what"], rec["ord"] = "tls", e["ord"]
                 if slot(e["ord"])["tls"] is None:
                     slot(e["ord"])["tls"] = rec
                 else:
                     slot(e["ord"])["other"].append(rec)
-            elif e["tid"] != main and e["gate"] == 30 and e["ord"] != 255:
+            elif e["tid"] != main and e["gate"] == 30 and e["ord"] != 255 and tid2ord.get(e["tid"]) == e["ord"]:
                 rec["what"], rec["ord"] = "value", e["ord"]
                 slot(e["ord"])["values"].append(rec)
             else:
                 rec["what"] = "unclassified"  # the join block is named by the next 'b' entry
         elif op == "b":
             rec = last_alloc.get(e["addr"])
+            if rec is not None and rec["what"] == "value" and not rec["frees"]:
+                # allocated by a spawned thread inside its body: it is the join block of a thread IT spawns
+                slot(rec["ord"])["values"].remove(rec)
+                rec["what"] = "unclassified"
             if rec is not None and rec["what"] == "unclassified":
                 rec["what"], rec["ord"] = "block", e["ord"]
                 slot(e["ord"])["block"] = rec
@@ -771,7 +794,16 @@ def classify_allocs(rep):
                 anomalies.append(("foreign-free", e))
         elif op == "N":
             anomalies.append(("alloc-returned-null", e))
-    unclassified = [r for r in last_alloc.values() if r["what"] == "unclassified"]
+    unclassified = []
+    for r in last_alloc.values():
+        if r["what"] != "unclassified":
+            continue
+        if r["by"] != main and r["by"] in tid2ord:
+            # made by a spawned thread outside any spawn it performs: memory of its own (its result value)
+            r["what"], r["ord"] = "value", tid2ord[r["by"]]
+            slot(r["ord"])["values"].append(r)
+        else:
+            unclassified.append(r)
     return per, anomalies, unclassified, tid2ord
 
 
@@ -785,9 +817,12 @@ def resource_checks(v, rep, specs, preds, ungated=False):
             v.add("C06:heap:foreign-free", "free of %#x (%d bytes) by tid %d at gate %s which is no live allocation" % (e["addr"], e["size"], e["tid"], e["gate"]))
         elif name == "alloc-returned-null":
             v.add("C06:heap:alloc-failed", "allocator returned null for %d bytes" % e["size"])
+    owner = {o_: t_ for o_, g_, t_ in rep["gt"] if g_ == 1}
     for o, (ty, panics, op) in enumerate(specs):
+        panics = is_panic(panics)
         if rep["spawn"].get(o, (1, 0))[0] != 1:
             continue
+        main = owner.get(o, rep["main_tid"])  # the handle owner of this thread (a spawned thread when nested)
         s = per.get(o)
         tid = rep["tids"].get(o, 0)
         if s is None or s["block"] is None:
@@ -884,6 +919,9 @@ def resource_checks(v, rep, specs, preds, ungated=False):
 def value_checks(v, rep, specs, preds, tag_of=lambda o: o):
     """C05 oracle on what join returned and what the closure did."""
     for o, (ty, panics, op) in enumerate(specs):
+        panics = is_panic(panics)
+        if op == "f":
+            continue  # a spawn that is expected to fail (injection): judged by the caller
         if rep["spawn"].get(o, (1, 0))[0] != 1:
             v.add("C05:spawn:failed-without-fault", "spawn %d returned Err although no system call failed" % o)
             continue
@@ -928,7 +966,7 @@ def value_checks(v, rep, specs, preds, tag_of=lambda o: o):
         v.add("C06:thread:not-exited", "%d spawned threads still exist at the end of the scenario" % rep["alive"])
 
 
-def strace_checks(v, rep, specs, preds, events):
+def strace_checks(v, rep, specs, preds, events, per=None):
     """System-call level oracle: stack mapped by spawn is unmapped exactly once, by the thread itself,
     right before its exit; join returned => that munmap is already in the log."""
     main = rep["main_tid"]
@@ -936,6 +974,9 @@ def strace_checks(v, rep, specs, preds, events):
     clones = [e for e in events if e["name"] == "clone" and e["ret"] and re.match(r"^\d+", e["ret"])]
     by_child = {int(re.match(r"^(\d+)", e["ret"]).group(1)): e for e in clones}
     for o, (ty, panics, op) in enumerate(specs):
+        panics = is_panic(panics)
+        if op == "f" or rep["spawn"].get(o, (1, 0))[0] != 1:
+            continue
         tid = rep["tids"].get(o, 0)
         ce = by_child.get(tid)
         if not tid or ce is None:
@@ -990,6 +1031,13 @@ def strace_checks(v, rep, specs, preds, events):
             v.add("C06:stack:thread-runs-after-unmap", desc + ": after its munmap the thread does %s, not exit" % (after[0]["name"] if after else "nothing"))
         # while it lived the thread touched the stack only... (nothing to check); reset of the clear-tid address
         resets = [x for x in events if x["pid"] == tid and x["name"] == "set_tid_address"]
+        if per is not None and resets and per.get(o) and per[o]["block"]:
+            # a thread resets its clear-tid address only on its own exit path, when it has to free its own join block
+            good = [f for f in per[o]["block"]["frees"] if not f.get("bad")]
+            if not good or good[0]["by"] != tid:
+                v.add("C05:exit-wake:clear-tid-reset-by-thread-that-keeps-its-join-block",
+                      "thread %d (tid %d) called set_tid_address(NULL) although its join block is freed by its handle owner: the kernel will not "
+                      "clear its exit word, whoever waits for this thread waits for ever" % (o, tid))
         if preds:
             if preds[o]["reset_tid"] and not resets:
                 v.add("C05:conformance:no-set-tid-address", "thread %d: the model trace resets the clear-tid address, the thread made no set_tid_address call" % o)
@@ -997,7 +1045,7 @@ def strace_checks(v, rep, specs, preds, events):
                 v.add("C05:conformance:unexpected-set-tid-address", "thread %d: set_tid_address although the thread won the flag" % o)
         # join returned => munmap (and exit) already logged
         if op in JOIN_OPS:
-            mk = [x for x in events if x["name"] == "munmap" and x["pid"] == main and x["args"].startswith("0x1, %d" % (0x1000 + o * 16 + 2))]
+            mk = [x for x in events if x["name"] == "munmap" and x["args"].startswith("0x1, %d" % (0x1000 + o * 16 + 2))]
             if mk:
                 if not (e["i1"] is not None and e["i1"] < mk[0]["i0"]):
                     v.add("C05:join:returned-before-thread-finished",
@@ -1055,7 +1103,8 @@ def crash_check(v, res, rep, specs=None):
         # the main thread sits in a handle operation that never returns (probe-side alarm or parent's limit)
         tail = [l for l in res["out"].splitlines() if not l.startswith(("maps", "a ", "gt "))][-3:]
         only_drops = bool(specs) and all(op in ("d", "e", "l", "x") for _t, _p, op in specs)
-        v.add("C05:drop:hangs" if only_drops else "C05:join:hangs",
+        after_panic = bool(specs) and any(is_panic(p_) for _t, p_, _o in specs)
+        v.add("C05:drop:hangs" if only_drops else ("C05:join:hangs-after-panic" if after_panic else "C05:join:hangs"),
               "a handle operation never returned (%s); last output: %s" %
               ("probe-side alarm" if not res["timed_out"] else "parent-side time limit", " | ".join(tail)))
         return True
@@ -1087,14 +1136,14 @@ def crash_check(v, res, rep, specs=None):
 # 6. Cases
 # ======================================================================================
 def spec_str(specs):
-    return ",".join("%s:%s:%s" % (ty, "p" if p else "r", op) for ty, p, op in specs)
+    return ",".join("%s:%s:%s" % (ty, kind_letter(p), op) for ty, p, op in specs)
 
 
 def eval_gated(binp, case):
     """case: dict(kind='gated', specs=[(ty,panics,op)], order, trace=[(o,g,k)], strace, delay_us)"""
     specs = [tuple(s) for s in case["specs"]]
     trace = [tuple(x) for x in case["trace"]]
-    cfg = Cfg([(p, op) for _, p, op in specs], case.get("order", "f"))
+    cfg = Cfg([(is_panic(p), op) for _, p, op in specs], case.get("order", "f"))
     # re-derive the prediction from the model along the trace
     st = cfg.init()
     for lab in trace:
@@ -1126,7 +1175,7 @@ def eval_gated(binp, case):
         strace_checks(v, rep, specs, preds, ev)
         info["futex_waits"] = futex_scan(rep, ev)
     maps_checks(v, rep)
-    info["outcome"] = "/".join("%s:%s:%s->%s,block@%s%s" % (specs[i][0], "p" if specs[i][1] else "r", specs[i][2], preds[i]["result"],
+    info["outcome"] = "/".join("%s:%s:%s->%s,block@%s%s" % (specs[i][0], kind_letter(specs[i][1]), specs[i][2], preds[i]["result"],
                                                           GATE[preds[i]["block_free_by"]].split("_")[0].lower(),
                                                           ",reset-tid" if preds[i]["reset_tid"] else "") for i in range(len(specs)))
     info["settle_timeouts"] = rep["settle_timeouts"]
@@ -1147,10 +1196,10 @@ def eval_free(binp, case):
     if rep["concurrent"] != (n, n + 1):
         v.add("C05:spawn:threads-not-concurrently-live", "%d threads spawned, %s started / tasks listed while all were held" % (n, rep["concurrent"]))
     value_checks(v, rep, specs, None)
-    resource_checks(v, rep, specs, None, ungated=True)
+    per = resource_checks(v, rep, specs, None, ungated=True)
     if case.get("strace"):
         ev = parse_strace(res["strace"])
-        strace_checks(v, rep, specs, None, ev)
+        strace_checks(v, rep, specs, None, ev, per=per)
         info["futex_waits"] = futex_scan(rep, ev)
     maps_checks(v, rep)
     return v, info, rep
@@ -1183,6 +1232,11 @@ def eval_hist(binp, case):
     info = dict(argv=argv, outcome="hist")
     if crash_check(v, res, rep, specs):
         return v, info, rep
+    if rep["stillrunning"]:
+        # observation only (op T): the closure of that thread never comes back, so neither C05 nor C06 say anything about it
+        info["outcome"] = "hist:observation:thread-blocked-in-%s-after-another-thread-panicked-inside-a-print-macro" % (
+            "println" if specs[rep["stillrunning"][0] % len(specs)][1] in ("P", "o") else "eprintln")
+        return v, info, rep
     h = rep["hist"]
     n = len(specs)
     if h["hangs"]:
@@ -1203,10 +1257,10 @@ def eval_hist(binp, case):
             info["outcome"] = "hist:kernel-timed-join"
     # fingerprint analysis: documented leak = closure box of each panicked thread
     leak_specs = case.get("closure_sizes")  # {type: (size, align)} learned from logged runs
-    f16 = any((ty in HEAP_TYPES) and not p and op in ("d", "e", "l", "x") for ty, p, op in specs)
+    f16 = any((ty in HEAP_TYPES) and not is_panic(p) and op in ("d", "e", "l", "x") for ty, p, op in specs)
     fps = rep["fp"]
     if len(fps) == reps and reps >= 8 and not f16:
-        per_rep = [(leak_specs or {}).get(ty) for ty, p, op in specs if p]
+        per_rep = [(leak_specs or {}).get(ty) for ty, p, op in specs if is_panic(p)]
         if any(x is None for x in per_rep):
             info["outcome"] = "hist:no-closure-size"
             return v, info, rep
@@ -1415,7 +1469,7 @@ def eval_tmo(binp, case):
     if not inj or inj[0]["pid"] != rep["main_tid"] or _hex(inj[0]["args"].split(",")[0]) not in {b + 4 for b in rep["blocks"].values()}:
         v.add("MACHINERY:injection-missed", "%s did not hit the handle owner's wait on the exit word" % inject)
         return v, info, rep
-    cfg = Cfg([(p_, op) for _, p_, op in specs], "f")
+    cfg = Cfg([(is_panic(p_), op) for _, p_, op in specs], "f")
     st = cfg.init()
     for lab in trace:
         st = [n for l, n, _ in successors(cfg, st, True) if l == lab][0]
@@ -1491,7 +1545,161 @@ def enumerate_race(tier):
     return cases
 
 
-EVAL = dict(gated=eval_gated, free=eval_free, hist=eval_hist, fault=eval_fault, race=eval_race, tmo=eval_tmo)
+def nest_layout(levels, pad):
+    """Slots (= thread ordinals) of a nested configuration, in spawn order.  levels: list of (kind, op) where op is
+    what the parent does with that level's handle.  -> (specs for the oracles, {level: slot}, failing slot or None)"""
+    specs = []
+    slot_of = {}
+    failing = None
+    for k, (kind, op) in enumerate(levels):
+        if op == "f":
+            for _ in range(pad):
+                specs.append(("?", False, "j"))  # the parent's padding threads: spawned and joined at once
+            failing = len(specs)
+        slot_of[k] = len(specs)
+        specs.append(("?", kind == "p", op))
+    return specs, slot_of, failing
+
+
+def eval_nest(binp, case):
+    """Nested spawning: main spawns level 0, the thread of level k spawns level k+1 and joins / drops it (or its spawn is
+    failed by injection), then returns or panics; main joins / drops level 0.  Same value / resource / system-call
+    oracles as everywhere, with the handle owner of a thread being whoever spawned it."""
+    ty = case["ty"]
+    levels = [tuple(x) for x in case["levels"]]
+    pad = case.get("pad", 0)
+    which = case.get("fail")  # None | "clone" | "mmap"
+    specs0, slot_of, failing = nest_layout(levels, pad)
+    specs = [(("u64" if t == "?" and i != slot_of.get(next((k for k, s_ in slot_of.items() if s_ == i), -1), -2) else ty), p_, op)
+             for i, (t, p_, op) in enumerate(specs0)]
+    # padding threads return a u64, the levels return `ty`
+    level_slots = set(slot_of.values())
+    specs = [((ty if i in level_slots else "u64"), p_, op) for i, (_t, p_, op) in enumerate(specs0)]
+    argv = ["nest", "3000", ty, str(pad), ",".join("%s.%s" % (k, o) for k, o in levels)]
+    v = V()
+    info = dict(argv=argv, outcome="nest:depth%d:%s" % (len(levels), "+".join(o for _k, o in levels)))
+    inject = None
+    if which:
+        # fault-free reference run: which call of which thread is the one to fail?
+        res = run_probe(binp, argv, strace=True, timeout=30)
+        rep0 = parse_report(res["out"])
+        if crash_check(v, res, rep0, specs):
+            keep_evidence(case["name"], res)
+            return v, info, rep0
+        ev0 = parse_strace(res["strace"])
+        ctid = rep0["tids"].get(failing, 0)
+        ce = next((e for e in ev0 if e["name"] == "clone" and e["ret"] and e["ret"].split()[0] == str(ctid)), None)
+        if ce is None:
+            v.add("MACHINERY:nest-reference", "no clone of the to-be-failed thread in the reference run")
+            return v, info, rep0
+        parent = ce["pid"]
+        calls = [e for e in ev0 if e["pid"] == parent and e["name"] == which and e["i0"] <= ce["i0"]]
+        if which == "mmap":
+            calls = [e for e in ev0 if e["pid"] == parent and e["name"] == "mmap" and e["i0"] < ce["i0"]]
+        k_thread = len(calls)
+        others = max([len([e for e in ev0 if e["pid"] == t and e["name"] == which]) for t in {e["pid"] for e in ev0} if t != parent] or [0])
+        k_merged = len([e for e in ev0 if e["name"] == which and e["i0"] <= (ce["i0"] if which == "clone" else calls[-1]["i0"])])
+        tries = []
+        if others < k_thread:
+            tries.append(k_thread)   # strace counts per thread
+        tries.append(k_merged)       # ... or over the whole process
+        err = "EAGAIN" if which == "clone" else "ENOMEM"
+        ok = False
+        for k in tries:
+            inject = "%s:error=%s:when=%d" % (which, err, k)
+            res = run_probe(binp, argv, inject=inject, timeout=30)
+            rep = parse_report(res["out"])
+            ev = parse_strace(res["strace"])
+            inj = [e for e in ev if e["ret"] and "INJECTED" in e["ret"]]
+            # the injected call must be one of the parent of the failing slot, and exactly one call
+            ptid = rep["tids"].get(next((s_ for k_, s_ in slot_of.items() if slot_of.get(k_ + 1) == failing or False), -1), None)
+            lvl = next(k_ for k_, s_ in slot_of.items() if s_ == failing)
+            ptid = rep["main_tid"] if lvl == 0 else rep["tids"].get(slot_of[lvl - 1], 0)
+            if len(inj) == 1 and inj[0]["pid"] == ptid and (res["timed_out"] or res["rc"] == -signal.SIGALRM or rep["spawn"].get(failing, (None,))[0] is not None):
+                ok = True
+                break
+        info["inject"] = inject
+        if not ok:
+            v.add("MACHINERY:nest-injection-missed", "could not fail the %s of the nested spawn (tried when=%s)" % (which, tries))
+            return v, info, rep
+    else:
+        res = run_probe(binp, argv, strace=True, timeout=30)
+        rep = parse_report(res["out"])
+        ev = parse_strace(res["strace"])
+    if crash_check(v, res, rep, specs):
+        # a hang here is what a thread that reaped another thread and then exits without waking its own joiner looks like
+        keep_evidence(case["name"], res)
+        info["outcome"] += ":hang"
+        if res["timed_out"] or res["rc"] == -signal.SIGALRM:
+            # once more in guard mode: every reaper first looks whether the kernel cleared the finished thread's exit word
+            # and leaves the handle alone if not, so that the run ends and what stays allocated / mapped can be accounted
+            res2 = run_probe(binp, argv + ["guard"], strace=not inject, inject=inject, timeout=30)
+            rep2 = parse_report(res2["out"])
+            if rep2["done"]:
+                for o in rep2["notcleared"]:
+                    v.add("C05:join:exit-word-not-cleared",
+                          "thread %d is gone but its exit word still reads 1: the kernel was not asked to clear it (the thread reset its clear-tid "
+                          "address although its join block stays with its handle owner) - join / drop of this handle waits for ever" % o)
+                for o in rep2["notgone"]:
+                    v.add("C05:join:hangs", "thread %d never finished (it is itself waiting for a thread whose exit word is never cleared)" % o)
+                vg = V()
+                per2 = resource_checks(vg, rep2, specs, None, ungated=True)
+                strace_checks(vg, rep2, specs, None, parse_strace(res2["strace"]), per=per2)
+                for k_, d_ in vg:
+                    v.add(k_, "[guard run: handles of threads whose exit word was never cleared are left alone] " + d_)
+        return v, info, rep
+    if which:
+        sp = rep["spawn"].get(failing)
+        if sp is None:
+            v.add("C05:probe:crashed", "no result for the nested spawn that was to fail")
+        elif sp[0] == 1:
+            v.add("C05:spawn:ok-after-failed-%s" % which, "nested spawn #%d returned Ok although its %s failed" % (failing, which))
+        elif sp[1] != (11 if which == "clone" else 12):
+            v.add("C05:spawn:wrong-error", "nested spawn #%d returned errno %d after a failed %s" % (failing, sp[1], which))
+        per0, _a, _u, _t = classify_allocs(rep)
+        s_ = per0.get(failing)
+        leaked = []
+        if s_:
+            for r_ in ("block", "closure", "tls"):
+                if s_[r_] and not s_[r_]["frees"]:
+                    leaked.append("%s(%d bytes)" % (r_, s_[r_]["size"]))
+        if leaked:
+            v.add("C06:spawn-failed-%s:resources-leaked" % which, "nested spawn #%d failed, what it had set up is never released: %s" % (failing, ", ".join(leaked)))
+    value_checks(v, rep, specs, None)
+    per = resource_checks(v, rep, specs, None, ungated=True)
+    strace_checks(v, rep, specs, None, ev, per=per)
+    maps_checks(v, rep)
+    info["futex_waits"] = futex_scan(rep, ev)
+    return v, info, rep
+
+
+def enumerate_nest(tier):
+    thorough = tier == "thorough"
+    cases = []
+    inner = [("r", "j"), ("p", "j"), ("r", "l"), ("p", "l"), ("r", "e"), ("p", "e"), ("r", "x")]
+    for ty in ("u64", "box"):
+        for okind in ("r", "p"):
+            for oop in ("j", "l", "x"):
+                for ik, iop in inner:
+                    cases.append(dict(kind="nest", ty=ty, levels=[(okind, oop), (ik, iop)], pad=0,
+                                      name="nest/2/%s/%s.%s>%s.%s" % (ty, okind, oop, ik, iop)))
+                for which in ("clone", "mmap"):
+                    cases.append(dict(kind="nest", ty=ty, levels=[(okind, oop), ("r", "f")], pad=3, fail=which,
+                                      name="nest/2/%s/%s.%s>fail-%s" % (ty, okind, oop, which)))
+    if thorough:
+        for ty in ("u64", "box"):
+            for oop in ("j", "l"):
+                for mk, mop in (("r", "j"), ("p", "j"), ("r", "l"), ("r", "e")):
+                    for ik, iop in inner:
+                        cases.append(dict(kind="nest", ty=ty, levels=[("r", oop), (mk, mop), (ik, iop)], pad=0,
+                                          name="nest/3/%s/r.%s>%s.%s>%s.%s" % (ty, oop, mk, mop, ik, iop)))
+                    for which in ("clone", "mmap"):
+                        cases.append(dict(kind="nest", ty=ty, levels=[("r", oop), (mk, mop), ("r", "f")], pad=3, fail=which,
+                                          name="nest/3/%s/r.%s>%s.%s>fail-%s" % (ty, oop, mk, mop, which)))
+    return cases
+
+
+EVAL = dict(gated=eval_gated, free=eval_free, hist=eval_hist, fault=eval_fault, race=eval_race, tmo=eval_tmo, nest=eval_nest)
 
 
 _RETRIES = [0]
@@ -1542,6 +1750,10 @@ def enumerate_cases(tier, model):
                 st = True
                 cases.append(dict(kind="gated", specs=[(ty, p, op)], order="f", trace=tr, strace=st, delay_us=0,
                                   name="g1/%s/%s/t%d" % (proto_name(p, op), ty, ti)))
+            if p:
+                for kind in ("e", "o", "m", "w"):
+                    cases.append(dict(kind="gated", specs=[("u64" if ti % 2 else "box", kind, op)], order="f", trace=tr, strace=True, delay_us=0,
+                                      name="g1k/%s/%s/t%d" % (proto_name(p, op), kind, ti)))
             if op == "j" or thorough:
                 cases.append(dict(kind="gated", specs=[("u64", p, op)], order="f", trace=tr, strace=True, delay_us=3000,
                                   name="g1d/%s/u64/t%d" % (proto_name(p, op), ti)))
@@ -1639,6 +1851,25 @@ def enumerate_hist(tier):
     # "the thread finishes during the join", timed by the kernel clock: the closure sleeps 300 ms, join is called at once
     for sp in (("u64", False, "s"), ("box", False, "s"), ("u64", True, "s")):
         cases.append(dict(kind="hist", specs=[sp], reps=1, log=True, strace=True, name="hist/sleep300/" + spec_str([sp])))
+    # WHERE the closure panics: inside a print macro argument (print lock held), holding a Mutex / RwLock guard
+    for kind in ("e", "o", "m", "w"):
+        for op in ("j", "J", "w", "e", "l", "x"):
+            for ty in ("u64", "box"):
+                cases.append(dict(kind="hist", specs=[(ty, kind, op)], reps=1, log=True, name="hist/panic-where/%s:%s:%s" % (ty, kind, op)))
+        # ... and a later thread that panics (plainly / in the same place) after the first one died there
+        # (a second thread that PRINTS after one died inside a print macro never gets the print lock: its closure never
+        #  finishes, which C05/C06 do not speak about - those combinations are the "observe" cases below)
+        for k2 in (("p", kind) if kind in "mw" else ("p", "m")):
+            for op2 in ("j", "l"):
+                cases.append(dict(kind="hist", specs=[("u64", kind, "j"), ("u64", k2, op2)], reps=1, log=True,
+                                  name="hist/panic-where/%s-then-%s:%s" % (kind, k2, op2)))
+    cases.append(dict(kind="hist", specs=[("u64", "E", "j"), ("u64", "P", "j"), ("u64", "e", "j"), ("u64", "o", "l")], reps=1, log=True,
+                      name="hist/panic-where/prints-then-panics"))
+    # observation (not judged): does a thread that merely prints still finish after another one died inside a print macro?
+    cases.append(dict(kind="hist", specs=[("u64", "o", "j"), ("u64", "P", "T")], reps=1, log=True, name="hist/observe/println-after-println-panic"))
+    cases.append(dict(kind="hist", specs=[("u64", "e", "j"), ("u64", "E", "T")], reps=1, log=True, name="hist/observe/eprintln-after-eprintln-panic"))
+    cases.append(dict(kind="hist", specs=[("u64", "e", "j"), ("u64", "e", "T")], reps=1, log=True, name="hist/observe/eprintln-panic-after-eprintln-panic"))
+    cases.append(dict(kind="hist", specs=[("u64", "o", "j"), ("u64", "E", "T")], reps=1, log=True, name="hist/observe/eprintln-after-println-panic"))
     # heap-owning results dropped unjoined (F16 candidate): every drop timing
     for ty in ("box", "str"):
         for op in ("e", "l", "x"):
@@ -1769,6 +2000,7 @@ def collect(tier, env=None, use_cache=True):
     cases = enumerate_cases(tier, model)
     cases += enumerate_hist(tier)
     rcases = enumerate_race(tier)
+    cases += enumerate_nest(tier)
     fcases, fnotes = enumerate_faults(binp, tier)
     notes += fnotes
     results = []
@@ -1870,7 +2102,8 @@ def make_report(prop, tier, data):
                     add(key, desc, case)
             continue
         rep["evaluations"] += 1
-        sig = (k, json.dumps(case.get("specs")), json.dumps(case.get("trace")), case.get("order"), case.get("inject"), case.get("reps"), case.get("delay_us"))
+        sig = (k, json.dumps(case.get("specs")), json.dumps(case.get("trace")), case.get("order"), case.get("inject"), case.get("reps"), case.get("delay_us"),
+               json.dumps(case.get("levels")), case.get("ty"), case.get("fail"))
         if sig not in seen:
             seen.add(sig)
             rep["distinct_nontrivial"] += 1
@@ -1917,7 +2150,11 @@ def make_report(prop, tier, data):
                    "invariants on every state; every maximal trace of the 1-thread model x 8 result types and %s of the 2-thread model is replayed as a gate schedule "
                    "on the real binary (one probe process per trace; quarantining allocator log + strace) and compared with the model's prediction; "
                    "ungated runs with 1..%d concurrently live threads; histories: all scenario words of length <= 3 and each scenario x %d back to back with a "
-                   "fingerprint lasso; each stack mmap / clone of a spawn loop failed by strace injection. A case is non-trivial when it is a distinct "
+                   "fingerprint lasso; each stack mmap / clone of a spawn loop failed by strace injection; closures that panic in a particular PLACE (inside an "
+                   "eprintln!/println! argument = holding the print lock, holding a Mutex / RwLock write guard) on every panic trace and in histories; NESTED "
+                   "spawning (a spawned thread is the handle owner of another: inner join / drop after / drop before finish / drop at once / spawn failed by "
+                   "injected clone or mmap failure x outer join / drop x outer returns / panics x {u64, Box<u64>}, depth 2, thorough also 3; a hanging case is "
+                   "re-run in a guard mode that leaves un-signalled handles alone so that leaks can be accounted). A case is non-trivial when it is a distinct "
                    "(scenario, trace/word, fault) tuple. PLUS A SAMPLED PHASE (not enumerated, not counted in evaluations/exhaustive): gate-aligned race sweeps - "
                    "for each pair (handle gate, thread gate) whose following steps touch the same shared word the two parties are parked at their gates and "
                    "released together with a skew of -64..+64 pauses, thousands of threads per pair, same per-allocation / value oracles per batch of 200; "
